@@ -583,6 +583,9 @@ protected:
 				setinf(s);
 				return *this;
 			}
+			// every other fraction pattern is a nan with a payload
+			setnan();
+			return *this;
 		}
 		if (v == 0.0) {
 			setzero();
